@@ -47,6 +47,8 @@ def run(pid, tier):
         hist.append([("D", "lib.min." + s, b"x"), ("F", "d/logo.2x." + s, b"y"), ("A", "e/h.v1." + s, "to/h.v1." + s, b"z"), ("D", "k.css." + s, b"w")])
     for s in unknown:
         hist.append([("D", "f." + s, b"x")] + ([("A", "e/noext", "to/n", b"z")] if s == "" else [("F", "d/g." + s, b"y"), ("A", "e/h." + s, "to/h." + s, b"z")]))
+    # a known suffix in front of an unknown last one (compressed copies, backups): the last suffix decides, the type is the generic one
+    hist.append([("D", "k.css.gz", b"x"), ("F", "d/k.js.br", b"y"), ("A", "e/k.svg.GZ", "to/k.svg.GZ", b"z"), ("D", "k.png.bak", b"w"), ("F", "d/k.json.orig", b"v"), ("D", "k.tar.gz", b"t")])
     # add_file_as of files without any suffix whose whole name reads like one: no suffix, hence the generic type
     hist.append([("A", "e/css", "css", b"z"), ("A", "e/json", "json", b"j"), ("A", "e/js", "js", b"k"), ("A", "e/svg", "to/svg", b"s")])
     # add_file_as under a published name whose spelling differs from the file's: "its suffix" is the suffix of the static file, i.e. of
